@@ -156,6 +156,9 @@ def build_reference(modules):
             if fps:
                 ref.setdefault(mname, {}).setdefault(q, fps)
                 ref.setdefault('__allfp__', {}).setdefault(mname, {}).setdefault(q, fingerprints_all(f))
+            bs = [[fp, names] for _n, fp, names in binders_of(f)]
+            if bs:
+                ref.setdefault('__binders__', {}).setdefault(mname, {}).setdefault(q, bs)
     return ref
 
 
@@ -218,6 +221,7 @@ def normalise(mname, tree):
         done.extend(more)
         if not more:
             break
+    _rename_binders_back(tree, load_reference().get('__binders__', {}).get(mname, {}), done)
     return done
 
 
@@ -274,3 +278,77 @@ def _rename_locals_back(tree, ref, done, refall=None):
             elif isinstance(n, ast.ExceptHandler) and n.name in mapping:
                 n.name = mapping[n.name]
         done.extend((q, a, r) for a, r in mapping.items())
+
+
+# ---------------------------------------------------------------------------------------------- comprehension / lambda variables
+_BINDERS = (ast.ListComp, ast.SetComp, ast.DictComp, ast.GeneratorExp, ast.Lambda)
+
+
+def _binder_targets(node):
+    if isinstance(node, ast.Lambda):
+        a = node.args
+        return [x.arg for x in a.posonlyargs + a.args + a.kwonlyargs] + ([a.vararg.arg] if a.vararg else []) + ([a.kwarg.arg] if a.kwarg else [])
+    out = []
+    for g in node.generators:
+        out += [x.id for x in ast.walk(g.target) if isinstance(x, ast.Name)]
+    return out
+
+
+class _RenameBinder(ast.NodeTransformer):
+    def __init__(self, mapping):
+        self.mapping = mapping
+
+    def visit_Name(self, node):
+        if node.id in self.mapping:
+            node.id = self.mapping[node.id]
+        return node
+
+    def visit_arg(self, node):
+        if node.arg in self.mapping:
+            node.arg = self.mapping[node.arg]
+        return node
+
+
+def _binder_fp(node):
+    import copy
+    tg = _binder_targets(node)
+    n2 = _RenameBinder({t: '_t%d' % i for i, t in enumerate(dict.fromkeys(tg))}).visit(copy.deepcopy(node))
+    return ast.unparse(n2)
+
+
+def binders_of(func):
+    """comprehensions and lambdas of func (nested ones too), in source order: [(fingerprint with own variables anonymised, [names])]"""
+    nodes = [n for n in _own(func) if isinstance(n, _BINDERS)]
+    # lambdas' bodies are not walked by _own: reach comprehensions inside lambdas as well
+    extra = []
+    for n in nodes:
+        if isinstance(n, ast.Lambda):
+            extra += [x for x in ast.walk(n.body) if isinstance(x, _BINDERS)]
+    nodes += [x for x in extra if not any(x is y for y in nodes)]
+    nodes.sort(key=lambda n: (getattr(n, 'lineno', 0), getattr(n, 'col_offset', 0)))
+    return [(n, _binder_fp(n), list(dict.fromkeys(_binder_targets(n)))) for n in nodes]
+
+
+def _rename_binders_back(tree, refb, done):
+    """a comprehension or lambda that is the reference one up to the names of its own variables gets the reference names back"""
+    for q, f in functions_of(tree):
+        rb = refb.get(q)
+        if not rb:
+            continue
+        act = binders_of(f)
+        used = set()
+        for fp, names in rb:
+            for i, (node, afp, anames) in enumerate(act):
+                if i in used or afp != fp:
+                    continue
+                used.add(i)
+                if anames != names and len(anames) == len(names):
+                    # the new names must not capture a name the body reads from outside
+                    free = {x.id for x in ast.walk(node) if isinstance(x, ast.Name)} - set(anames)
+                    if free & set(names):
+                        break
+                    tmp = {a: '__b%d__' % k for k, a in enumerate(anames)}
+                    _RenameBinder(tmp).visit(node)
+                    _RenameBinder({'__b%d__' % k: r for k, r in enumerate(names)}).visit(node)
+                    done.append((q, ','.join(anames), ','.join(names) + ' (comprehension/lambda variable)'))
+                break
